@@ -20,7 +20,7 @@ def check(run, args):
     recs = run.validate_trace("Trace_Forms.tla", "Trace_Forms.cfg", trace_path=trace,
                               overrides=dict(Names='{"block", "call", "values", "params", "do"}') if thorough else None)
     os.remove(os.path.join(d, "trace%d.ndjson" % (len(run.tlc_runs) - 1)))
-    mine = [r for r in recs if r["prop"] == run.prop]
+    mine = [r for r in recs if r["prop"] in (run.prop, "CRASH")]
     firsts = {}
     for r in mine:
         firsts.setdefault(r["key"], r)
